@@ -6,7 +6,7 @@
 //! encodes them in the target's byte code and has the sanitizer binary execute them.
 
 use crate::driver::{keys, scratch_root};
-use crate::fuzz::{self, FFI_BIN};
+use crate::fuzz::{self, ffi_bin};
 use crate::runner::{hash_of, Failure, Run, Tier};
 use proptest::prelude::*;
 use proptest::strategy::ValueTree;
@@ -129,7 +129,7 @@ pub fn sequence(with_data: bool) -> impl Strategy<Value = ([u8; 4], Vec<(u8, Op)
 
 fn minimise(artifact: &Path) -> PathBuf {
     let out = PathBuf::from(format!("{}.min", artifact.display()));
-    let _ = std::process::Command::new(FFI_BIN)
+    let _ = std::process::Command::new(ffi_bin())
         .arg(artifact)
         .arg("-minimize_crash=1")
         .arg("-runs=400")
@@ -147,8 +147,8 @@ fn minimise(artifact: &Path) -> PathBuf {
 }
 
 pub fn run(run: &Run) {
-    if !Path::new(FFI_BIN).exists() {
-        run.health.lock().unwrap().push(format!("{FFI_BIN} is missing (fuzz build failed?)"));
+    if !Path::new(ffi_bin()).exists() {
+        run.health.lock().unwrap().push(format!("{} is missing (fuzz build failed?)", ffi_bin()));
         return;
     }
     let n = run.tier.pick(3000usize, 24000usize);
@@ -209,8 +209,8 @@ pub fn run(run: &Run) {
     }
     let prefix = "/verif/replays/C19-";
     let _ = std::fs::create_dir_all("/verif/replays");
-    let before: std::collections::HashSet<PathBuf> = fuzz::run_dirs_once(FFI_BIN, &[], prefix, &root).artifacts.into_iter().collect();
-    let out = fuzz::run_dirs_once(FFI_BIN, &all_dirs, prefix, &root);
+    let before: std::collections::HashSet<PathBuf> = fuzz::run_dirs_once(ffi_bin(), &[], prefix, &root).artifacts.into_iter().collect();
+    let out = fuzz::run_dirs_once(ffi_bin(), &all_dirs, prefix, &root);
     run.parts.lock().unwrap().push(json!({"part": "generated sequences executed once under ASan+LSan", "files": out.executed, "ok": out.ok}));
     let report = |out: &fuzz::Outcome, what: &str| {
         let new: Vec<PathBuf> = out.artifacts.iter().filter(|a| !before.contains(*a) && !a.to_string_lossy().ends_with(".min")).cloned().collect();
@@ -230,8 +230,14 @@ pub fn run(run: &Run) {
         }
     };
     report(&out, "a generated call sequence failed in the ASan/LSan build");
-    if run.tier == Tier::Thorough && out.ok {
-        let camp = fuzz::campaign(FFI_BIN, &root.join("campaign"), 40000, 16, run.seed, 400, prefix, &root, false);
+    if out.ok {
+        // second pass over the same files with the quarantine off: freed blocks are re-used at once
+        let out2 = fuzz::run_dirs_once_with(ffi_bin(), &all_dirs, prefix, &root, "quarantine_size_mb=0:thread_local_quarantine_size_kb=0");
+        run.parts.lock().unwrap().push(json!({"part": "the same sequences again under ASan+LSan with the quarantine off (immediate re-use of freed addresses)", "files": out2.executed, "ok": out2.ok}));
+        report(&out2, "a generated call sequence failed in the ASan/LSan build with the quarantine off");
+    }
+    if run.tier == Tier::Thorough && out.ok && !run.has_failures() {
+        let camp = fuzz::campaign(ffi_bin(), &root.join("campaign"), 40000, 16, run.seed, 400, prefix, &root, false);
         run.parts.lock().unwrap().push(json!({"part": "coverage-guided libFuzzer campaign (16 jobs)", "runs_approximate": camp.executed, "ok": camp.ok}));
         run.stats.lock().unwrap().count("fuzz_runs_approximate", camp.executed);
         report(&camp, "the coverage-guided campaign found a failing call sequence");
@@ -245,7 +251,7 @@ pub fn run(run: &Run) {
 
 /// Replay of a saved fuzzer input (raw bytes).
 pub fn replay_artifact(path: &Path) -> Result<(), Failure> {
-    let (ok, rep) = fuzz::run_one(FFI_BIN, path, true);
+    let (ok, rep) = fuzz::run_one(ffi_bin(), path, true);
     if ok {
         Ok(())
     } else {
